@@ -1,9 +1,11 @@
 import Driver.Cb
 import Driver.Map
+import Driver.Read
 
 def main (args : List String) : IO UInt32 := do
   let stdin ← IO.getStdin
   match args with
   | ["cb"] => Driver.Cb.run stdin; return 0
   | ["map"] => Driver.Map.run stdin; return 0
+  | ["read"] => Driver.Read.run stdin; return 0
   | _ => IO.eprintln "usage: kdfdrv <stream>"; return 2
